@@ -83,10 +83,37 @@ fn rk4_overshoot() -> Option<String> {
     None
 }
 
+/// C15: with no mass matrix supplied the problem is y' = f whatever mass storage is selected (low-level RADAU builder defaults)
+fn default_mass() -> Option<String> {
+    use ivp::methods::RADAU;
+    use ivp::solout::SolOut;
+    struct Last(Vec<f64>);
+    impl SolOut for Last { fn solout(&mut self, _: f64, _: &mut f64, y: &mut [f64], _: Option<&StepInterpolant<'_>>) -> ControlFlag { self.0 = y.to_vec(); ControlFlag::Continue } }
+    let f = Lin::new();
+    let mut l = Last(vec![]);
+    let r = RADAU::builder().build().solve(&f, 0.0, &[1.0], 1.0, 1e-6.into(), 1e-9.into(), Some(&mut l));
+    match r {
+        Ok(res) => {
+            let y1 = l.0.get(0).copied().unwrap_or(f64::NAN);
+            if (y1 - (-1.0f64).exp()).abs() > 1e-3 { return Some(format!("RADAU::builder().build() (default mass storage) on y'=-y, y(0)=1: status {:?}, y(1) = {} instead of {}", res.status, y1, (-1.0f64).exp())); }
+            None
+        }
+        Err(e) => Some(format!("RADAU default builder returned Err({:?})", e)),
+    }
+}
+/// C17: every public constructor yields a matrix all of whose entries can be read
+fn matrix_dense_model() -> Option<String> {
+    let r = std::panic::catch_unwind(|| { let m = Matrix::square(2); m[(0, 0)] + m[(1, 1)] });
+    if r.is_err() { return Some("Matrix::square(2)[(0,0)] panics".to_string()); }
+    None
+}
+
 fn main() {
     let which = std::env::args().nth(1).unwrap_or_default();
     let r = match which.as_str() {
         "span_hinit_probe" => span_hinit_probe(),
+        "default_mass" => default_mass(),
+        "matrix_dense_model" => matrix_dense_model(),
         "rk4_overshoot" => rk4_overshoot(),
         "event_interpolant_right_end" => event_interpolant_right_end(),
         _ => { println!("unknown scenario {}", which); std::process::exit(2); }
